@@ -227,6 +227,8 @@ def normalNode (op : Op) (p : Payload) (args : List Term) : Bool :=
      | d :: rest => decide (rest = unpairs ((pyDict (pairsOf rest)).filter (fun kv => kv.2 ≠ d)))
      | [] => false)
   | .pow => false
+  | .intConst => (match p with | .i _ => true | _ => false)
+  | .realConst => (match p with | .q _ => true | _ => false)
   | op =>
     !isBvSameWidthOp op ||
       (match args with
